@@ -501,7 +501,7 @@ def mc(tier):
     cfgs = [("inc_p2", {"Paths": "{p1, p2}", "NT": 1, "MaxM": 1, "MaxC": 1, "MaxOps": 2, "MaxInv": 2, "RecordBefore": True, "GuardNoInput": True, "Foreigns": True}),
             ("inc_t2", {"Paths": "{p1, p2}", "NT": 2, "MaxM": 1, "MaxC": 1, "MaxOps": 1, "MaxInv": 2, "RecordBefore": True, "GuardNoInput": True, "Foreigns": False})]
     if tier == "thorough":
-        cfgs.append(("inc_p3", {"Paths": "{p1, p2, p3}", "NT": 1, "MaxM": 1, "MaxC": 1, "MaxOps": 2, "MaxInv": 2, "RecordBefore": True, "GuardNoInput": True, "Foreigns": True}))
+        cfgs.append(("inc_p3", {"Paths": "{p1, p2, p3}", "NT": 1, "MaxM": 1, "MaxC": 1, "MaxOps": 2, "MaxInv": 2, "RecordBefore": True, "GuardNoInput": True, "Foreigns": False}))
     invs = ["TypeOK", "FullOnlyFromSuccess", "SkipMeansUpToDate", "SkipComplete", "NoInputNoRecord"]
     for name, consts in cfgs:
         key = hashlib.sha256(json.dumps([spec_h, name, consts, invs], sort_keys=True).encode()).hexdigest()[:16]
